@@ -5,10 +5,14 @@
     (cursor, tag), failures cached too) returns is what the plain interpreter returns
     ([memo_transparent]), and for the oal grammar in particular. The model interpreters agree
     with the real parser on trees, end cursors and even on the reads / hits / cache-size
-    counters (tie). Not proved (measured by the monitor, and said so): the linear bound on the
-    work, and that the arena-based tree of grammar.rs (where re-appending a cached node
+    counters (tie). The table half of "keeps parsing linear" is proved: the table never holds
+    two results for one (cursor, tag) — a memoised production is evaluated at most once per
+    cursor — and has at most 2 (n + 1) entries for n tokens ([C12_oal_memo_bodies_run_once]; the
+    table size is one of the counters the tie compares with the real [Context]). Not proved
+    (measured by the monitor, and said so): the linear bound on the token reads (it depends on
+    how the unmemoised loops of this grammar interleave with the memoised productions), and that the arena-based tree of grammar.rs (where re-appending a cached node
     detaches it from its previous parent) reads back as the immutable tree of the model. *)
-From Oal Require PegTerm GrammarTerm.
+From Oal Require PegTerm GrammarTerm MemoBound.
 From Oal Require Import Peg Grammar PegProofs GrammarProofs.
 Local Open Scope nat_scope.
 
@@ -51,3 +55,23 @@ Theorem C12_parser_fuel_linear : forall (toks : list N) n,
   parse_pure n toks <> Fuel /\ fst (parse_memo n toks) <> Fuel.
 Proof. exact GrammarTerm.oal_parsers_terminate. Qed.
 Print Assumptions C12_parser_fuel_linear.
+
+(** the memo table holds each (cursor, tag) at most once and is linear in the number of tokens:
+    generic (any grammar with a termination certificate), then the oal grammar with the fuel that always suffices *)
+Theorem C12_memo_table_bound :
+  forall class_ok is_trivia K g cons rank R Z,
+  (forall nt, PegTerm.prod_okb g cons rank R Z nt = true) ->
+  forall toks tag_body, (forall nt, wf_pexp tag_body (g nt)) ->
+  forall tags, (forall nt, incl (MemoBound.ptags (g nt)) tags) ->
+  forall n p s acc r st',
+  wf_pexp tag_body p -> incl (MemoBound.ptags p) tags -> s <= length toks ->
+  runm class_ok is_trivia K g toks n p s acc (mk_mstate [] 0 0) = (r, st') -> r <> Fuel ->
+  NoDup (MemoBound.keys st') /\ length (table st') <= S (length toks) * length tags.
+Proof. exact MemoBound.memo_table_bound. Qed.
+Print Assumptions C12_memo_table_bound.
+
+Theorem C12_oal_memo_bodies_run_once : forall toks : list N,
+  let n := length toks * (S GrammarTerm.OR * S GrammarTerm.OZ) + S (GrammarTerm.orank P_PROGRAM) * S GrammarTerm.OZ + 1 in
+  NoDup (map fst (table (snd (parse_memo n toks)))) /\ length (table (snd (parse_memo n toks))) <= 2 * S (length toks).
+Proof. exact MemoBound.oal_memo_bodies_run_once. Qed.
+Print Assumptions C12_oal_memo_bodies_run_once.
